@@ -7,7 +7,7 @@ from engine.cond import CondCtx, satisfiable
 from engine.defuse import defuse_of, attr_accesses
 from engine.names import unresolved_names, possibly_unbound
 from engine.fold import UNKNOWN
-from .common import calls_named, package_calls, node_lits, enum_lit, stmt_effects
+from .common import calls_named, package_calls, node_lits, enum_lit, stmt_effects, before
 from . import c01
 from .c02 import _Sub
 
@@ -349,7 +349,7 @@ def r5(ctx):
     cn = ctx.fn("client:UdpClient.connect")
     cb = [n for n in walk_own(cn.node) if isinstance(n, ast.Assign) and norm(n.targets[0]) == "self.conn.connection_callback"]
     hello = calls_named(cn, "_sendClientHello")
-    ctx.check(len(cb) == 1 and norm(cb[0].value) == cn.params[2] and len(hello) == 1 and cb[0].lineno < hello[0].lineno, "C12.R5", cn, "connect() registers the callback, then sends the hello")
+    ctx.check(len(cb) == 1 and norm(cb[0].value) == cn.params[2] and len(hello) == 1 and before(cn, cb[0], hello[0]), "C12.R5", cn, "connect() registers the callback, then sends the hello")
 
 
 def r_enum(ctx):
